@@ -85,7 +85,7 @@ Lemma set_last_update_inv c t s : inv c s -> inv c (set_last_update t s).
 Proof. intros H. exact H. Qed.
 
 Lemma mark_syncing_data c s : inv c s ->
-  let s' := set_data true (mark_syncing s) in
+  let s' := store_data (mark_syncing s) in
   has_data s' = true /\ last_fail s' = last_fail s /\ last_sync s' = last_sync s /\
   last_online s' = last_online s /\ now s' = now s.
 Proof. intros H. unfold mark_syncing. destruct (status s); cbn; repeat split; reflexivity. Qed.
@@ -99,7 +99,7 @@ Proof.
   pose proof (do_query_inv c modes (set_last_update (now s) s) (set_last_update_inv c _ s H)) as H1.
   destruct (do_query c modes (set_last_update (now s) s)) as [s1 ok]. cbn [fst] in H1.
   destruct ok; cbn [fst snd]; [|split; [exact H1|discriminate]].
-  inv_parts H1. unfold inv, synced, reset_errors, set_data, mark_syncing.
+  inv_parts H1. unfold inv, synced, reset_errors, store_data, mark_syncing.
   destruct (status s1); cbn; repeat split; intros; try discriminate; try congruence; try lia.
 Qed.
 
@@ -112,6 +112,7 @@ Proof.
   pose proof (do_query_inv c modes s H) as H1.
   destruct (do_query c modes s) as [s1 ok]. cbn [fst] in H1.
   destruct ok; cbn [fst snd]; [|split; [exact H1|discriminate]].
+  destruct (negb (Nat.eqb (core_seen s1) (env_core s1))); cbn [fst snd]; [split; [exact H1|discriminate]|].
   rewrite Hf. cbn [andb]. destruct (has_data s1) eqn:Hd; cbn [negb fst snd].
   - destruct (reset_inv c s1 Hs H1 Hd) as [Hi Hsy]. split; [exact Hi|]. intros _. exact Hsy.
   - split; [exact H1|discriminate].
@@ -186,6 +187,7 @@ Proof.
   - apply periodic_inv; assumption.
   - apply pass_inv; assumption.
   - apply client_query_inv; assumption.
+  - exact H.
 Qed.
 
 Lemma run_inv c modes evs :
@@ -203,7 +205,9 @@ Qed.
 Definition frame (s s' : st) : Prop :=
   idling s' = idling s /\ last_query s' = last_query s /\ now s' = now s /\
   main_restart s' = main_restart s /\ last_update s' = last_update s /\
-  last_online s' = last_online s /\ last_sync s' = last_sync s.
+  last_online s' = last_online s /\ last_sync s' = last_sync s /\
+  core_seen s' = core_seen s /\ dset_seen s' = dset_seen s /\
+  env_core s' = env_core s /\ env_dset s' = env_dset s.
 
 Lemma frame_refl s : frame s s.
 Proof. unfold frame; repeat split; reflexivity. Qed.
@@ -348,12 +352,16 @@ Proof.
   assert (Hdelta : synced (after_update c modes (update_delta c modes s2))).
   { unfold after_update. destruct (update_delta_inv c modes s2 Hs Hf Hi2) as [Hi3 Hsy].
     unfold update_delta in *. pose proof (do_query_ok_addr c modes s2 Hok) as Haddr.
+    pose proof (do_query_inv c modes s2 Hi2) as Hi4.
     destruct (do_query c modes s2) as [s3 ok] eqn:Hq. cbn [fst snd] in *. subst ok.
-    rewrite Hf in *. cbn [andb] in *. destruct (has_data s3) eqn:Hd; cbn [negb fst snd] in *.
-    - apply Hsy; reflexivity.
-    - apply init_all_inv; [assumption|assumption|]. apply init_all_recovers.
+    assert (Hre : synced (fst (init_all c modes s3))).
+    { apply init_all_inv; [assumption|assumption|]. apply init_all_recovers.
       assert (Hm : mode_of modes (addr (set_last_update (now s3) s3)) = MOk) by exact Haddr.
       rewrite (do_query_ok_again c modes _ Hn Hm). reflexivity. }
+    destruct (negb (Nat.eqb (core_seen s3) (env_core s3))); cbn [fst snd] in *; [exact Hre|].
+    rewrite Hf in *. cbn [andb] in *. destruct (has_data s3) eqn:Hd; cbn [negb fst snd] in *.
+    - apply Hsy; reflexivity.
+    - exact Hre. }
   destruct (status s); destruct (has_data s); assumption.
 Qed.
 
@@ -393,7 +401,8 @@ Lemma update_delta_frame_idle c modes s :
 Proof.
   unfold update_delta. pose proof (do_query_frame c modes s) as (A & B & C & _).
   destruct (do_query c modes s) as [s1 ok]. cbn [fst] in *.
-  destruct ok; [|auto]. destruct (c_fixed c && negb (has_data s1)); cbn; auto.
+  destruct ok; [|auto]. destruct (negb (Nat.eqb (core_seen s1) (env_core s1))); [cbn; auto|].
+  destruct (c_fixed c && negb (has_data s1)); cbn; auto.
 Qed.
 
 Lemma resume_frame c modes s :
